@@ -166,7 +166,7 @@ def render(c):
 
 def run(pid, tier, seed, replay):
     ck = Check(pid, tier, seed, level="proof")
-    n = 300 if tier == "quick" else 6000
+    n = 200 if tier == "quick" else 6000
     # ---- T: regenerate the tables from the current sources
     info_path = os.path.join(vlib.BUILD, "c38_info.json")
     rc, out, _ = vlib.sh([sys.executable, os.path.join(vlib.VERIF, TRANSLATOR), vlib.REPO, os.path.join(vlib.COQ, "Gen/OperatorPrec.v"), "--json", info_path])
@@ -224,13 +224,16 @@ def run(pid, tier, seed, replay):
             skipped += 1
             ck.problem("tie", "case in the modelled fragment could not be rendered (%s): %s" % (e, c["sql"][:300]))
     pre = "From Coq Require Import NArith List.\nFrom DF Require Import Base.Prelude Gen.OperatorPrec Model.Unparse.\nImport ListNotations.\nOpen Scope N_scope."
-    bad, log, dt = vlib.coq_eval_cases(pre, "c38_case", "c38_check", terms, shard=300, tag="c38")
+    bad, log, dt = vlib.coq_eval_cases(pre, "c38_case", "c38_check", terms, shard=120, tag="c38")
     ck.log("correspondence: %d cases, %d disagreements (%.1fs)" % (len(corr), len(bad), dt))
     if bad:
         first = bad[0]
         ck.problem("tie", "model and implementation disagree on %d cases; first: %s" %
                    (len(bad), str({k: corr[first].get(k) for k in ("mode", "meaning", "sql", "tok", "reparsed", "struct_ok")} if isinstance(first, int) else log)[:1500]))
-    nontriv = {vlib.case_hash([c["mode"], c["x"]]) for c in cases if "x" in c and any(k in json.dumps(c["x"]["l"] if "l" in c["x"] else c["x"]) for k in ('"b"', '"not"', '"is"', '"in"', '"like"', '"neg"')) and "l" in json.dumps(c["x"])}
+    def nested(x):      # an operator directly inside another operator
+        kids = [v for k, v in x.items() if isinstance(v, dict)] + [i for v in x.values() if isinstance(v, list) for i in v if isinstance(i, dict)]
+        return "a" not in x and any("a" not in k for k in kids)
+    nontriv = {vlib.case_hash([c.get("mode", c.get("dialect")), c["x"]]) for c in cases if "x" in c and nested(c["x"])}
     nontriv |= {vlib.case_hash([c["optimized"], c["sql0"]]) for c in cases if c["stream"].startswith("plan") and c.get("stage") == "compared" and c.get("nrows", 0) > 0}
     plan_stages = {}
     for c in cases:
